@@ -14,17 +14,25 @@ Definition Zf (z : Z) : float :=
   if z <? 0 then PrimFloat.opp (PrimFloat.of_uint63 (Uint63.of_Z (- z)))
   else PrimFloat.of_uint63 (Uint63.of_Z z).
 
-(** math.Round(x) as an integer, for the values that occur: the unique c among hint-3..hint+3
-    with c - 0.5 <= x < c + 0.5 (x >= 0; halves away from zero), else [None]. *)
-Definition roundNear (x : float) (hint : Z) : option Z :=
-  let ok c := PrimFloat.leb (PrimFloat.sub (Zf c) 0.5%float) x && PrimFloat.ltb x (PrimFloat.add (Zf c) 0.5%float) in
-  find ok [hint; hint - 1; hint + 1; hint - 2; hint + 2; hint - 3; hint + 3].
+(** math.Round(x) as an integer: the exact value of a finite float is m * 2^e ([Prim2SF]);
+    halves are rounded away from zero.  NaN and infinities give 0 (they do not occur: the
+    operands are quotients and products of integers below 2^63). *)
+Definition roundF (x : float) : Z :=
+  match FloatOps.Prim2SF x with
+  | S754_finite s m e =>
+    let mag := if 0 <=? e then Z.pos m * 2 ^ e
+               else (2 * Z.pos m + 2 ^ (- e)) / (2 * 2 ^ (- e)) in
+    if s then - mag else mag
+  | _ => 0
+  end.
 
 Definition thousandth : float := Eval vm_compute in PrimFloat.div (Zf 1) (Zf 1000).  (* the literal 0.001 *)
+Definition million : float := Eval vm_compute in Zf 1000000.                          (* the literal 1e6 *)
 
 (** CheckTimeValidity in float64.  [a]: None = +Inf, Some ms = the offset ms/1000 as parsed from
     the URL (strconv.ParseFloat of a decimal with at most three fraction digits is the correctly
-    rounded quotient ms/1000). *)
+    rounded quotient ms/1000).  Both instants are rounded to whole microseconds before they are
+    compared. *)
 Definition checkTimeF (availTicks tsc nowMS tsbd : Z) (a : option Z) : tv :=
   match a with
   | None => TvOk
@@ -33,13 +41,25 @@ Definition checkTimeF (availTicks tsc nowMS tsbd : Z) (a : option Z) : tv :=
     let atoS := PrimFloat.div (Zf atoMS) (Zf 1000) in
     let av := if atoMS >? 0 then PrimFloat.sub av0 atoS else av0 in
     let nw := PrimFloat.mul (Zf nowMS) thousandth in
-    if PrimFloat.ltb nw av then
-      match roundNear (PrimFloat.mul (PrimFloat.sub av nw) (Zf 1000))
-                      (match checkTime availTicks tsc nowMS tsbd a with TvTooEarly ms => ms | _ => 0 end) with
-      | Some ms => TvTooEarly ms
-      | None => TvTooEarly (-1)
-      end
-    else if PrimFloat.ltb av (PrimFloat.sub nw (PrimFloat.add (Zf tsbd) (Zf tsbdMarginS))) then TvGone
+    let availUS := roundF (PrimFloat.mul av million) in
+    let nowUS := roundF (PrimFloat.mul nw million) in
+    if availUS >? nowUS then
+      TvTooEarly (roundF (PrimFloat.div (Zf (availUS - nowUS)) (Zf 1000)))
+    else if availUS <? nowUS - roundF (PrimFloat.mul (PrimFloat.add (Zf tsbd) (Zf tsbdMarginS)) million) then TvGone
+    else TvOk
+  end.
+
+(** The same computation in exact arithmetic: what the float64 code computes when its rounding
+    errors (below 0.4 microseconds for instants up to 2*10^9 s) do not move a value across a
+    half-microsecond boundary. *)
+Definition checkTimeU (availTicks tsc nowMS tsbd : Z) (a : option Z) : tv :=
+  match a with
+  | None => TvOk
+  | Some atoMS =>
+    let availUS := round_div ((availTicks * 1000 - (if atoMS >? 0 then atoMS * tsc else 0)) * 1000) tsc in
+    let nowUS := nowMS * 1000 in
+    if availUS >? nowUS then TvTooEarly (round_div (availUS - nowUS) 1000)
+    else if availUS <? nowUS - (tsbd + tsbdMarginS) * 1000000 then TvGone
     else TvOk
   end.
 
@@ -113,10 +133,43 @@ Proof.
     destruct (negb _); [reflexivity|]. rewrite H. reflexivity.
 Qed.
 
-(** An on-grid instant at which the float64 test refuses a segment at its exact availability
-    instant: segment 0 of the 29.97 asset (end 60060/30000 = 2.002 s), start 30 s, offset 0.5 s:
-    A = 31.502 s, the request at nowMS = 31502 is answered "0 ms too early". *)
-Lemma checkTimeF_edge_witness :
+(** On the millisecond grid (the availability instant A*1000/tsc is a whole number [Ams] of
+    milliseconds) the microsecond computation is the exact test of Timeline.v. *)
+Lemma checkTimeU_grid A Ams tsc tsbd a now :
+  0 < tsc -> A * 1000 = Ams * tsc -> (forall ms, a = Some ms -> 0 <= ms) ->
+  checkTimeU A tsc now tsbd a = checkTime A tsc now tsbd a.
+Proof.
+  intros Hts HA Ha. destruct a as [atoMS|]; [|reflexivity].
+  unfold checkTimeU, checkTime, round_div.
+  set (o := if atoMS >? 0 then atoMS * tsc else 0).
+  assert (Ho : exists k, o = k * tsc /\ 0 <= k).
+  { unfold o. destruct (atoMS >? 0) eqn:G; [exists atoMS; split; [reflexivity|lia] | exists 0; lia]. }
+  destruct Ho as (k & -> & Hk). rewrite HA.
+  replace ((Ams * tsc - k * tsc) * 1000) with ((Ams - k) * 1000 * tsc) by ring.
+  replace (2 * ((Ams - k) * 1000 * tsc) + tsc) with (tsc + (2 * ((Ams - k) * 1000)) * tsc) by ring.
+  assert (E1 : (tsc + 2 * ((Ams - k) * 1000) * tsc) / (2 * tsc) = (Ams - k) * 1000).
+  { replace (2 * ((Ams - k) * 1000) * tsc) with (((Ams - k) * 1000) * (2 * tsc)) by ring.
+    rewrite Z.div_add by lia. rewrite Z.div_small by lia. lia. }
+  rewrite E1.
+  destruct ((Ams - k) * 1000 >? now * 1000) eqn:G1; destruct (Ams * tsc - k * tsc >? now * tsc) eqn:G2; try nia.
+  - f_equal.
+    replace (2 * ((Ams - k) * 1000 - now * 1000) + 1000) with (1000 + (2 * (Ams - k - now)) * 1000) by ring.
+    replace (2 * 1000) with 2000 by reflexivity.
+    replace (2 * (Ams * tsc - k * tsc - now * tsc) + tsc) with (tsc + (2 * (Ams - k - now)) * tsc) by ring.
+    replace ((1000 + 2 * (Ams - k - now) * 1000) / 2000) with (Ams - k - now).
+    2:{ replace (2 * (Ams - k - now) * 1000) with ((Ams - k - now) * 2000) by ring.
+        rewrite Z.div_add by lia. reflexivity. }
+    replace (2 * (Ams - k - now) * tsc) with ((Ams - k - now) * (2 * tsc)) by ring.
+    rewrite Z.div_add by lia. rewrite Z.div_small by lia. lia.
+  - destruct ((Ams - k) * 1000 <? now * 1000 - (tsbd + tsbdMarginS) * 1000000) eqn:G3;
+    destruct (Ams * tsc - k * tsc <? now * tsc - (tsbd + tsbdMarginS) * 1000 * tsc) eqn:G4; try reflexivity; nia.
+Qed.
+
+(** The instant at which the float64 test of the original code refused a segment at its exact
+    availability instant (32.002 - 0.5 > 31502 * 0.001 in float64; segment 0 of the 29.97 asset,
+    start 30 s, offset 0.5 s): the microsecond comparison accepts it. *)
+Lemma checkTimeF_edge_ok :
   checkTime (60060 + 30 * 30000) 30000 31502 3600 (Some 500) = TvOk /\
-  checkTimeF (60060 + 30 * 30000) 30000 31502 3600 (Some 500) = TvTooEarly 0.
-Proof. split; vm_compute; reflexivity. Qed.
+  checkTimeF (60060 + 30 * 30000) 30000 31502 3600 (Some 500) = TvOk /\
+  checkTimeF (60060 + 30 * 30000) 30000 31501 3600 (Some 500) = TvTooEarly 1.
+Proof. repeat split; vm_compute; reflexivity. Qed.
